@@ -128,6 +128,9 @@ func (v *visitor) IdentifierNode(node *ast.IdentifierNode) reflect.Type {
 		if t.Ambiguous {
 			return v.error(node, "ambiguous identifier %v", node.Value)
 		}
+		if t.Method {
+			return v.error(node, "method %v can only be called", node.Value)
+		}
 		return t.Type
 	}
 	if !v.strict {
